@@ -341,10 +341,10 @@ impl Iterator for Lexer {
 
                 while let Some(current) = self.current() {
                     dir_str.push(current);
-                    if let Some(next) = self.peek(1) {
-                        if !Self::is_symbol_char(next) {
-                            break;
-                        }
+                    // Stop on the last character of the directive
+                    match self.peek(1) {
+                        Some(next) if Self::is_symbol_char(next) => {}
+                        _ => break,
                     }
                     self.consume_char();
                 }
@@ -524,10 +524,10 @@ impl Iterator for Lexer {
 
                 while let Some(current) = self.current() {
                     symbol_str.push(current);
-                    if let Some(next) = self.peek(1) {
-                        if !Self::is_symbol_item(next) {
-                            break;
-                        }
+                    // Stop on the last character of the symbol
+                    match self.peek(1) {
+                        Some(next) if Self::is_symbol_item(next) => {}
+                        _ => break,
                     }
                     self.consume_char();
                 }
